@@ -206,3 +206,136 @@ Example C18_crash_hyps_example :
   (forall l b x, toy_gunzip ((fun _ : list N => @nil N) (toy_gz l b)) = GzOk x -> x = b \/ x = []) /\
   toy_gunzip ((fun x => x) []) = GzOk [].
 Proof. exact crash_hyps_example. Qed.
+
+(* ---------------------------------------------------------------------- *)
+(* ShardedFileAccessor.close() (StFaults.close_prog): per dirty shard, in
+   insertion order: mkdir, open "wb", one write per block (zero header, the
+   data of each minishard - whose buffer is deleted after its write -, the
+   minishard indices, the shard index over the zero header), close; dirty is
+   reset only after that.  The payload bytes are given ([shard_desc]); the
+   writer state is, per shard, the dirty flag and the number of deleted
+   minishard buffers.  [reach p cs a]: some sequence of replies of the
+   primitives drives p through the calls cs to the result a - every run,
+   faulted or not, on any tree, ends in a reachable result, so the statements
+   below hold for every fault position, errno and tree. *)
+
+Theorem C18_close_runs_are_reachable :
+  forall (B : Type) (plain : list N -> B) (trunc : B -> B) A (p : prog B A) k e t,
+  exists cs, reach B p cs (fst (run_fault B (plain []) trunc k e t p)).
+Proof. intros. apply run_fault_reach. Qed.
+Print Assumptions C18_close_runs_are_reachable.
+
+(* (a) a fault in ANY primitive of close (mkdir, open, any of the writes, the
+   close of the file) makes close() fail with an I/O error - or the index lies
+   beyond the trace and nothing happened *)
+Theorem C18_close_fault_to_error :
+  forall (B : Type) (plain : list N -> B) (trunc : B -> B),
+  forall l k e t,
+  fst (fst (run_fault B (plain []) trunc k e t (close_prog B plain l))) = CIOErr \/
+  run_fault B (plain []) trunc k e t (close_prog B plain l) = run B (plain []) t (close_prog B plain l).
+Proof. exact close_fault_to_error. Qed.
+Print Assumptions C18_close_fault_to_error.
+
+(* (b) every way a close can end.  Either it returns normally: then every
+   shard was handled ([segs]: shard after shard, each Shard.close returning
+   normally) and is clean.  Or it raises at some shard x: the shards before x
+   were handled completely and are clean, x is left in the state [stx], the
+   shards after x keep their state - and no primitive was called for them (the
+   calls are those of l1 and of x). *)
+Theorem C18_close_reach :
+  forall (B : Type) (plain : list N -> B),
+  forall l done cs r S',
+  reach B (close_shards B plain l done) cs (r, S') ->
+  (r = COk /\ S' = rev done ++ map closed_of l /\ segs B plain l cs) \/
+  (r <> COk /\ exists l1 x l2 ca cb stx,
+     l = l1 ++ x :: l2 /\ cs = ca ++ cb /\ segs B plain l1 ca /\
+     reach B (shard_close_prog B plain (fst x) (snd x)) cb (r, stx) /\
+     S' = rev done ++ map closed_of l1 ++ stx :: map snd l2).
+Proof. exact close_reach. Qed.
+Print Assumptions C18_close_reach.
+
+(* what one Shard.close can do: calls only on its directory and file; normal
+   return: it was clean (no call at all) or its buffers were intact and the
+   last thing written to its file is the complete shard; I/O error: it stays
+   dirty and the number of deleted buffers is min(n, writes made - 2) (the
+   failing write included: 0 for a fault at mkdir, open, the zero header or the
+   first data block; n for a fault in the index writes, the shard index or the
+   file's close); AttributeError: a buffer was already deleted, the state is
+   unchanged and the file now holds just the zero header *)
+Theorem C18_shard_close_reach :
+  forall (B : Type) (plain : list N -> B),
+  forall d st cs r st',
+  reach B (shard_close_prog B plain d st) cs (r, st') ->
+  on_shard B d cs /\
+  match r with
+  | COk => st' = closed_of (d, st) /\
+           (sh_dirty st = false /\ cs = [] \/
+            sh_dirty st = true /\ sh_dead st = 0%nat /\
+            last_written B (sd_file d) cs = Some (plain (complete d)))
+  | CIOErr => sh_dirty st = true /\ sh_dirty st' = true /\
+              ((sh_dead st = 0%nat /\ sh_dead st' = Nat.min (sd_n d) (nwrites B cs - 2)) \/
+               ((0 < sh_dead st)%nat /\ st' = st))
+  | CAttrErr => sh_dirty st = true /\ (0 < sh_dead st)%nat /\ st' = st /\
+                last_written B (sd_file d) cs = Some (plain (sd_zero d))
+  end.
+Proof. exact shard_reach. Qed.
+Print Assumptions C18_shard_close_reach.
+
+(* shards handled before the failing one are complete: with pairwise different
+   shard files (none of them a scale directory) the last content written to the
+   file of every dirty shard of the handled prefix is the complete shard *)
+Theorem C18_closed_shards_complete :
+  forall (B : Type) (plain : list N -> B),
+  forall l1 cs, segs B plain l1 cs -> files_apart l1 ->
+  forall x, In x l1 -> sh_dirty (snd x) = true ->
+  sh_dead (snd x) = 0%nat /\ last_written B (sd_file (fst x)) cs = Some (plain (complete (fst x))).
+Proof. exact segs_complete. Qed.
+Print Assumptions C18_closed_shards_complete.
+
+(* (c) the retry.  [retry_descs l S'] is the shard list of a second close on
+   the state the first one left.  It returns normally only if the shard that
+   failed had all its buffers (fault at mkdir, open, zero header or first data
+   block, by C18_shard_close_reach), and then every shard that was still dirty
+   is written completely; the clean ones are not touched *)
+Theorem C18_retry_descs :
+  forall l1 x l2 stx,
+  retry_descs (l1 ++ x :: l2) (map closed_of l1 ++ stx :: map snd l2)
+  = map (fun y => (fst y, closed_of y)) l1 ++ (fst x, stx) :: l2.
+Proof. exact retry_descs_eq. Qed.
+Print Assumptions C18_retry_descs.
+
+Theorem C18_retry_ok_needs_buffers :
+  forall (B : Type) (plain : list N -> B),
+  forall l1 dx stx l2 cs2 S2,
+  sh_dirty stx = true ->
+  reach B (close_prog B plain (l1 ++ (dx, stx) :: l2)) cs2 (COk, S2) -> sh_dead stx = 0%nat.
+Proof. exact retry_ok_needs_buffers. Qed.
+Print Assumptions C18_retry_ok_needs_buffers.
+
+Theorem C18_retry_ok_complete :
+  forall (B : Type) (plain : list N -> B),
+  forall l cs2 S2,
+  reach B (close_prog B plain l) cs2 (COk, S2) -> files_apart l ->
+  S2 = map closed_of l /\
+  forall x, In x l -> sh_dirty (snd x) = true ->
+    sh_dead (snd x) = 0%nat /\ last_written B (sd_file (fst x)) cs2 = Some (plain (complete (fst x))).
+Proof. exact retry_ok_complete. Qed.
+Print Assumptions C18_retry_ok_complete.
+
+(* otherwise - a buffer of the failing shard was deleted: fault at the second
+   or a later data block, at an index write, at the shard index or at the
+   file's close - the second close never returns normally: it raises an I/O
+   error or the AttributeError, the states are unchanged, and in the
+   AttributeError case the shard file has been truncated to the zero header
+   (also when the first attempt had written it completely and only the file's
+   close had failed) *)
+Theorem C18_retry_raises :
+  forall (B : Type) (plain : list N -> B),
+  forall l1 dx stx l2 cs2 r2 S2,
+  sh_dirty stx = true -> (0 < sh_dead stx)%nat ->
+  Forall (fun y => sh_dirty (snd y) = false) l1 ->
+  reach B (close_prog B plain (l1 ++ (dx, stx) :: l2)) cs2 (r2, S2) ->
+  r2 <> COk /\ S2 = map snd l1 ++ stx :: map snd l2 /\
+  (r2 = CAttrErr -> last_written B (sd_file dx) cs2 = Some (plain (sd_zero dx))).
+Proof. exact retry_raises. Qed.
+Print Assumptions C18_retry_raises.
